@@ -5,6 +5,10 @@ P=$1; K=$2; TIER=${3:-quick}
 export GOFLAGS=-mod=mod GOPROXY=off GOSUMDB=off GOTOOLCHAIN=local
 SRC=/tmp/seed_${P}_out
 DIFF=$SRC/change$K.diff; DEMO=$SRC/demo${K}_test.go; META=$SRC/meta$K.json
+if [ ! -f "$DIFF" ] && [ -f /verif/seeded/${P}_$K/patch.diff ]; then
+  # fall back to the kept copy (scratch copies are written under /tmp and removed after use)
+  mkdir -p $SRC; cp /verif/seeded/${P}_$K/patch.diff $DIFF; cp /verif/seeded/${P}_$K/demo_test.go $DEMO; cp /verif/seeded/${P}_$K/meta.json $META
+fi
 [ -f "$DIFF" ] || { echo "no diff"; exit 2; }
 DIR=$(python3 -c "import json;print(json.load(open('$META'))['dir'])")
 WT=/tmp/sv_${P}_$K
